@@ -11,6 +11,7 @@ type orC03A struct {
 	baseOracle
 	lockLostAt map[string]time.Duration // incarnation -> instant its ownership of the lock znode ended (server truth)
 	ownedEver  map[string]bool
+	ownedSess  map[string]int64 // incarnation -> session in which it last created the lock znode
 }
 
 func (o *orC03A) name() string { return "C03A" }
@@ -27,6 +28,10 @@ func (o *orC03A) onZK(e *ZKEvent) {
 	switch e.Op {
 	case "create":
 		o.ownedEver[e.Inc] = true
+		if o.ownedSess == nil {
+			o.ownedSess = map[string]int64{}
+		}
+		o.ownedSess[e.Inc] = e.Sess
 		delete(o.lockLostAt, e.Inc)
 	case "delete":
 		// e.Inc is the session owner for expiry-driven deletes, the issuer for explicit ones;
@@ -118,6 +123,12 @@ func (o *orC03A) onZKEventWrite(e *ZKEvent) {
 		return // cleared by the host itself (C11)
 	}
 	m.probe("c03_manager_write_checked")
+	// a manager-only write issued in a session other than the one that created the lock znode:
+	// the lock was bound to the lost session, the process knows its session changed and has not
+	// re-acquired - it does not hold the lock whatever it was told before
+	if ls, ok := o.ownedSess[e.Inc]; ok && e.Sess != 0 && ls != e.Sess && m.lockOwner != e.Inc {
+		m.violate("C03", "act_after_session_loss", "manager-write-replayed-in-new-session-without-lock:"+strings.SplitN(rel, "/", 2)[0], fmt.Sprintf("%s %s %s in session %x; it held the lock in session %x, which is gone, and has not re-acquired it (owner=%q)", e.Inc, e.Op, e.Path, e.Sess, ls, m.lockOwner))
+	}
 	var it *iterRec
 	if x := m.iters[e.Inc]; x != nil && x.open {
 		it = x
